@@ -277,6 +277,14 @@ pub unsafe extern "C" fn close(fd: c_int) -> c_int {
 }
 
 #[unsafe(no_mangle)]
+pub unsafe extern "C" fn shutdown(fd: c_int, how: c_int) -> c_int {
+    if how == libc::SHUT_WR || how == libc::SHUT_RDWR {
+        with_world(|w| { if w.sozu_fds.contains_key(&fd) { w.shut_wr.insert(fd); } });
+    }
+    unsafe { ret_errno(sc!(libc::SYS_shutdown, fd, how)) as c_int }
+}
+
+#[unsafe(no_mangle)]
 pub unsafe extern "C" fn kill(pid: libc::pid_t, sig: c_int) -> c_int {
     if with_world(|w| { w.stats.kills += 1; w.kills.push((pid, sig)); w.tr(0x4B, pid as u64); }).is_some() {
         return 0;
@@ -348,14 +356,14 @@ pub unsafe extern "C" fn writev(fd: c_int, iov: *const libc::iovec, cnt: c_int) 
 }
 #[unsafe(no_mangle)]
 pub unsafe extern "C" fn recv(fd: c_int, buf: *mut c_void, len: size_t, flags: c_int) -> ssize_t {
-    let _ = pre_io(fd, Dir::R, len);
+    if let Some((forced, _)) = pre_io(fd, Dir::R, len) { if forced < 0 { sys::set_errno(libc::EAGAIN); return -1; } }
     let r = unsafe { sc!(libc::SYS_recvfrom, fd, buf, len, flags, 0, 0) };
     post_io(fd, Dir::R, len, r);
     unsafe { ret_errno(r) as ssize_t }
 }
 #[unsafe(no_mangle)]
 pub unsafe extern "C" fn read(fd: c_int, buf: *mut c_void, len: size_t) -> ssize_t {
-    let _ = pre_io(fd, Dir::R, len);
+    if let Some((forced, _)) = pre_io(fd, Dir::R, len) { if forced < 0 { sys::set_errno(libc::EAGAIN); return -1; } }
     let r = unsafe { sc!(libc::SYS_read, fd, buf, len) };
     post_io(fd, Dir::R, len, r);
     unsafe { ret_errno(r) as ssize_t }
@@ -365,7 +373,7 @@ pub unsafe extern "C" fn readv(fd: c_int, iov: *const libc::iovec, cnt: c_int) -
     let total: usize = if crate::world::in_sim() && !iov.is_null() && cnt > 0 {
         unsafe { std::slice::from_raw_parts(iov, cnt as usize) }.iter().map(|v| v.iov_len).sum()
     } else { 0 };
-    let _ = pre_io(fd, Dir::R, total);
+    if let Some((forced, _)) = pre_io(fd, Dir::R, total) { if forced < 0 { sys::set_errno(libc::EAGAIN); return -1; } }
     let r = unsafe { sc!(libc::SYS_readv, fd, iov, cnt) };
     post_io(fd, Dir::R, total, r);
     unsafe { ret_errno(r) as ssize_t }
